@@ -60,6 +60,9 @@ def gen_cases(tier, seed):
         cs.append({'base': {'src': 'text', 'text': t, 'seed': i, 'scriptv': {}}, 'k': i, 'nscripts': 1})
     for i, t in enumerate(DEVICE_ARG_FORMS):
         cs.append({'base': {'src': 'text', 'text': t, 'seed': i}, 'k': i, 'nscripts': 3, 'allcfg': True})
+    from .common import shape_cases
+    for i, b_ in enumerate(shape_cases(45 if tier == 'quick' else None, seed)):
+        cs.append({'base': b_, 'k': i, 'nscripts': 1, 'allcfg': True})
     # near-miss argument passing (every by-reference location form x argument type x parameter type, arrays, records):
     # whatever the compiler accepts of these is run under the monitors; the mismatching ones are rejected on a correct tree
     from .. import nearmiss
